@@ -188,9 +188,16 @@ static SLOT_LEN: [std::sync::atomic::AtomicUsize; MAX_SLOTS] = [const { std::syn
 static mut CRASH_PATH: [u8; 512] = [0; 512];
 static mut CRASH_ID: [u8; 16] = [0; 16];
 
+static SLOT_SINCE: [std::sync::atomic::AtomicU64; MAX_SLOTS] = [const { std::sync::atomic::AtomicU64::new(0) }; MAX_SLOTS];
+
+fn now_ms() -> u64 {
+    std::time::SystemTime::now().duration_since(std::time::UNIX_EPOCH).map(|d| d.as_millis() as u64).unwrap_or(0)
+}
+
 fn slot_set(slot: usize, tape: &[u32]) {
     if slot < MAX_SLOTS {
         SLOT_LEN[slot].store(tape.len(), Ordering::SeqCst);
+        SLOT_SINCE[slot].store(now_ms(), Ordering::SeqCst);
         SLOT_PTR[slot].store(tape.as_ptr() as *mut u32, Ordering::SeqCst);
     }
 }
@@ -199,6 +206,41 @@ fn slot_clear(slot: usize) {
     if slot < MAX_SLOTS {
         SLOT_PTR[slot].store(std::ptr::null_mut(), Ordering::SeqCst);
     }
+}
+
+/// A case that does not come back (a loop in the library that neither returns nor polls) cannot
+/// be decided without a clock: after `VERIF_HANG_SECS` (default 600) on one tape the watchdog
+/// writes the tapes of the stuck workers to `<ID>-hang-<pid>.json`, says so and ends the process
+/// with status 2 (inconclusive) - never a violation.
+pub fn start_watchdog(id: &str) {
+    let id = id.to_string();
+    let limit_ms: u64 = std::env::var("VERIF_HANG_SECS").ok().and_then(|s| s.parse::<u64>().ok()).unwrap_or(600) * 1000;
+    std::thread::spawn(move || loop {
+        std::thread::sleep(std::time::Duration::from_secs(2));
+        let now = now_ms();
+        let mut stuck: Vec<Vec<u32>> = vec![];
+        for slot in 0..MAX_SLOTS {
+            let p = SLOT_PTR[slot].load(Ordering::SeqCst);
+            let since = SLOT_SINCE[slot].load(Ordering::SeqCst);
+            if !p.is_null() && since > 0 && now.saturating_sub(since) > limit_ms {
+                let len = SLOT_LEN[slot].load(Ordering::SeqCst).min(1 << 20);
+                // the worker is still inside the case, so its tape is alive
+                let tape = unsafe { std::slice::from_raw_parts(p as *const u32, len) }.to_vec();
+                stuck.push(tape);
+            }
+        }
+        if !stuck.is_empty() {
+            let dir = out_root().join("evidence").join("replays");
+            let _ = std::fs::create_dir_all(&dir);
+            let path = dir.join(format!("{}-hang-{}.json", id, std::process::id()));
+            let doc = json!({"property": id, "signature": format!("{}:no-return", id), "message": format!("a case did not return within {} s", limit_ms / 1000), "candidates": stuck});
+            let _ = std::fs::write(&path, serde_json::to_string(&doc).unwrap_or_default());
+            println!("HARNESS-ERROR: {} inconclusive - a case did not return within {} s (no poll, no result); the tapes of the stuck workers are in {}", id, limit_ms / 1000, path.display());
+            use std::io::Write;
+            let _ = std::io::stdout().flush();
+            unsafe { libc::_exit(2) };
+        }
+    });
 }
 
 unsafe fn raw_write(fd: i32, bytes: &[u8]) {
